@@ -115,6 +115,9 @@ type Machine struct {
 	overSignal *pathEnd
 	internalErr string
 	crcOrigin  map[*Term][]Value
+	lastInstr  ssa.Instruction
+	lastFn     *ssa.Function
+	lastFrame  *frame
 }
 
 type nondetVar struct {
@@ -450,7 +453,14 @@ func (m *Machine) runFrame(fr *frame) {
 		}
 		jumped := false
 		for _, instr := range instrs[k:] {
-			switch m.visit(fr, instr) {
+			m.lastInstr, m.lastFn, m.lastFrame = instr, fr.fn, fr
+			var c cont
+			if m.tolerant > 0 {
+				c = m.visitTolerant(fr, instr)
+			} else {
+				c = m.visit(fr, instr)
+			}
+			switch c {
 			case kReturn:
 				return
 			case kJump:
@@ -1420,4 +1430,38 @@ func (m *Machine) fromTerm(x *Term, t types.Type) Value {
 func fatalf(format string, a ...interface{}) {
 	fmt.Fprintf(os.Stderr, format+"\n", a...)
 	os.Exit(3)
+}
+
+// visitTolerant executes an instruction of a package initialiser that may
+// touch unmodelled runtime facilities (reflection, cpu feature detection …):
+// an instruction that cannot be executed yields the zero value of its type.
+func (m *Machine) visitTolerant(fr *frame, instr ssa.Instruction) (c cont) {
+	defer func() {
+		if r := recover(); r != nil {
+			if pe, ok := r.(pathEnd); ok && pe.kind != "unsupported" {
+				panic(r)
+			}
+			if _, ok := r.(crashSignal); ok {
+				panic(r)
+			}
+			c = kNext
+			if v, ok := instr.(ssa.Value); ok {
+				func() {
+					defer func() {
+						if recover() != nil {
+							fr.set(v, nil)
+						}
+					}()
+					fr.set(v, zero(v.Type()))
+				}()
+			}
+			switch instr.(type) {
+			case *ssa.If, *ssa.Jump, *ssa.Return, *ssa.Panic:
+				// control flow cannot be skipped: abandon this initialiser
+				fr.block = nil
+				c = kReturn
+			}
+		}
+	}()
+	return m.visit(fr, instr)
 }
